@@ -335,3 +335,146 @@ def fold(ctx, prop, impl, histories, rcm, mo, em, rci, io, ei):
                            {"history": h[:d + 1], "op": h[d], "model": m[d], "impl": i[d]})
         else:
             ctx.traces_validated += 1
+
+
+# ============================================================================= C03: blocking protocol under the scheduler
+def gen_sync_case(rng):
+    cap = rng.randint(3, 10)
+    nreaders = rng.randint(1, 3)
+    lines = ["CAP %d" % cap, "READERS %d" % nreaders]
+    w = []
+    for _ in range(rng.randint(2, 7)):
+        r = rng.random()
+        n = cap - 1 if r < 0.25 else rng.randint(max(1, cap // 2), cap - 1) if r < 0.6 else rng.randint(1, cap - 1) if r < 0.95 else cap
+        w.append("w %d" % n)
+        w.append("c" if rng.random() < 0.85 else "a")
+    lines.append("T " + ";".join(w))
+    for i in range(nreaders):
+        ops = []
+        for _ in range(rng.randint(2, 8)):
+            ops.append("r %d" % i)
+            ops.append("u %d %d" % (i, 1 << 40 if rng.random() < 0.7 else rng.randint(0, cap)))
+        lines.append("T " + ";".join(ops))
+    if rng.random() < 0.6:
+        k = []
+        for _ in range(rng.randint(1, 3)):
+            k.append("acc %d" % (0 if rng.random() < 0.6 else 1))
+        lines.append("T " + ";".join(k))
+    return lines
+
+
+def canon_trace(lines):
+    """Keep what the model predicts: (tid, kind) per step, op results; drop the main thread and label text."""
+    out = []
+    for l in lines:
+        if l.startswith("S "):
+            w = l.split()
+            if w[1] != "0":
+                out.append("S %s %s" % (w[1], w[2]))
+        elif l.startswith("E "):
+            out.append(l)
+        elif l.startswith(("DEADLOCK", "END", "STEPLIMIT", "UNFINISHED", "MODEL-DISABLED")):
+            out.append(l.split()[0])
+            break
+    return out
+
+
+def sync_oracle(case, lines):
+    """C03 over the implementation's own trace: a sleeping writer that proceeds after a mere spurious wake-up had
+    missed a notification (release of space or refusal)."""
+    v = []
+    if any(l.startswith("STEPLIMIT") for l in lines):
+        v.append(("steplimit", "the run did not finish within the step limit (livelock)"))
+    if "DEADLOCK-PROBE" in lines:
+        k = lines.index("DEADLOCK-PROBE")
+        before = [l for l in lines[:k] if l.startswith("E ")]
+        acc = before[-1].split(" | S ")[1].split()[4] if before else "1"
+        for l in lines[k:]:
+            if l.startswith("E ") and l.split()[2] == "W":
+                what = "refusal" if acc == "0" else "released space"
+                v.append(("lost-wakeup-" + ("refuse" if acc == "0" else "space"),
+                          "the writer slept forever although its request could proceed (%s): after one spurious wake-up it returned '%s'"
+                          % (what, " ".join(l.split(" | ")[0].split()[2:]))))
+                break
+    for l in lines:
+        if l.startswith("FATAL"):
+            v.append(("lock-discipline", l))
+    return v
+
+
+def run_c03(ctx):
+    ctx.coq_prove(["Properties_C03"])
+    orac = ctx.oracle_build()
+    here = os.path.join(ctx.famdir, "harness")
+    vp = os.path.join(vlib.VERIF, "harness", "vplatform")
+    impl = ctx.cc([os.path.join(here, "h_chansync.c"), os.path.join(vp, "vsched.c"), RT + "/channel.c"], "h_chansync",
+                  flags=["-I" + vp, "-I" + os.path.join(vlib.REPO, RT)])
+    thorough = ctx.tier == "thorough"
+    ctx.rule = ("threads W (map/commit/abort), 1..3 readers (map/unmap, partial), K (accept 0/1) running scripts on the real channel.c under "
+                "the deterministic scheduler; one random schedule per case (seed), capacities 3..10; lock-step comparison of every step "
+                "(thread, scheduling-point kind) and every result/state with the extracted ChanSync model; non-trivial = the writer parked "
+                "at least once; distinct = script text + schedule")
+    ctx.assumptions = ["pthread mutex/condvar semantics are those of harness/vplatform (mutual exclusion, atomic release-and-wait, broadcast wakes all waiters)",
+                       "OS fairness (an enabled thread is eventually scheduled)", "sequential consistency at block granularity",
+                       "one writer thread; readers registered before the concurrent phase; no double map"]
+    cases = []
+    cdir = os.path.join(vlib.VERIF, "corpus", "C03")
+    if os.path.isdir(cdir):
+        for fn in sorted(os.listdir(cdir)):
+            cases.append([l.strip() for l in open(os.path.join(cdir, fn)) if l.strip() and not l.startswith("#")])
+    n = 40000 if thorough else 2500
+    for k in range(n):
+        c = gen_sync_case(ctx.rng)
+        c.append("SEED %d" % ctx.rng.randint(1, 1 << 30))
+        if ctx.rng.random() < 0.15:
+            c.append("SPURIOUS 1")
+        cases.append(c)
+
+    def one(case):
+        rc, o, e = vlib.sh([impl], inp="\n".join(case) + "\n", timeout=60)
+        lines = o.split("\n")
+        sched = None
+        for l in lines:
+            if l.startswith("SCHEDULE"):
+                sched = l.split()[1:]
+                break
+        mcase = [l for l in case if not l.startswith(("SEED", "SCHED", "PREFIX"))] + ["SCHED " + " ".join(sched or [])]
+        rcm, mo, em = vlib.sh([orac], inp="\n".join(mcase) + "\n", timeout=60)
+        return rc, lines, e, mo.split("\n"), sched
+
+    results = vlib.parallel(one, cases)
+    for case, (rc, lines, err, mlines, sched) in zip(cases, results):
+        ci = canon_trace(lines)
+        cm = canon_trace(mlines)
+        parked = any(l.endswith(" prewait") for l in ci)
+        ctx.case("\n".join(case) + " ".join(sched or []), nontrivial=parked)
+        ctx.count("parked" if parked else "never-parked")
+        if "DEADLOCK-PROBE" in lines:
+            ctx.count("blocked-at-end")
+        if rc not in (0, 42) or sched is None:
+            if "AddressSanitizer" in (err or "") or "runtime error" in (err or ""):
+                ctx.violation("sanitizer report in the scheduler run: " + (err or "")[-400:], {"case": case, "stderr": (err or "")[-2000:]}, key="crash")
+            else:
+                ctx.broken_tie("scheduler harness failed", {"case": case, "rc": rc, "tail": lines[-5:], "stderr": (err or "")[-500:]})
+            continue
+        for key, msg in sync_oracle(case, lines):
+            if not ctx.has_violation(key):
+                ctx.violation(msg, {"case": case, "schedule": sched, "trace_tail": lines[-25:],
+                                    "how": "feed `case` with the line 'SCHED <schedule>' to .build/C03/h_chansync"}, key=key)
+        if ci != cm:
+            d = next((k for k in range(min(len(ci), len(cm))) if ci[k] != cm[k]), min(len(ci), len(cm)))
+            ctx.broken_tie("lock-step disagreement between ChanSync and channel.c under the scheduler",
+                           {"case": case, "schedule": sched, "step": d, "impl": ci[d:d + 2], "model": cm[d:d + 2]})
+        else:
+            ctx.traces_validated += 1
+        if len(ctx.samples) < 2 and parked:
+            ctx.sample({"case": case, "schedule": " ".join(sched)})
+
+
+_run_ring = run
+
+
+def run(ctx):
+    if ctx.prop == "C03":
+        return run_c03(ctx)
+    return _run_ring(ctx)
